@@ -307,6 +307,11 @@ var topRules = []topRule{
 		bad: "$S = { k: fn() -> null, n: int };\nfn g(s: $S) { println(s.n); }\nfn main() { g(); }\n"},
 	{name: "singleton-type-without-default-any", good: "$S = { k: ?int, a: { ? }, n: { m: int } };\nfn g(s: $S) { println(s.n.m, s.a.keys(), s.k.is_none()); }\nfn main() { g(); }\n",
 		bad: "$S = { n: { m: any } };\nfn g(s: $S) { println(1); }\nfn main() { g(); }\n"},
+	// a thread starts in a FUNCTION (of the module or imported); a value of a function type cannot be spawned
+	{name: "spawn-function-value-variable", good: "fn f() { println(1); }\nfn main() { spawn f(); }\n", bad: "fn f() { println(1); }\nfn main() { let g = f; spawn g(); }\n"},
+	{name: "spawn-function-value-parameter", good: "fn f() { println(1); }\nfn run() { spawn f(); }\nfn main() { run(); }\n", bad: "fn run(cb: fn() -> null) { spawn cb(); }\nfn main() { run(fn() { println(1); }); }\n"},
+	{name: "spawn-builtin", good: "fn show() { println(\"x\"); }\nfn main() { spawn show(); }\n", bad: "fn main() { spawn println(\"x\"); }\n"},
+	{name: "spawn-imported-function", lib: "pub fn f() { println(1); }\nfn main() {}\n", good: "import f from lib;\nfn main() { spawn f(); }\n", bad: "import f from lib;\nfn main() { let g = f; spawn g(); }\n"},
 	{name: "duplicate-parameter-singleton-and-normal", good: "$S = { n: int };\nfn f(a: $S, b: int) -> int { a.n + b }\nfn main() { println(f(1)); }\n", bad: "$S = { n: int };\nfn f(a: $S, a: int) -> int { a.n }\nfn main() { println(f(1)); }\n"},
 	{name: "duplicate-parameter-two-singletons", good: "$S = { n: int };\n$T = { m: int };\nfn f(a: $S, b: $T) -> int { a.n + b.m }\nfn main() { println(f()); }\n", bad: "$S = { n: int };\n$T = { m: int };\nfn f(a: $S, a: $T) -> int { a.n }\nfn main() { println(f()); }\n"},
 	{name: "duplicate-parameter", good: "fn f(a: int, b: int) -> int { a + b }\nfn main() { println(f(1, 2)); }\n", bad: "fn f(a: int, a: int) -> int { a }\nfn main() { println(f(1, 2)); }\n"},
